@@ -89,4 +89,13 @@ def smudgeSpec (b : Bytes) (st : Store) : SmudgeRes :=
       | some c => if c.length = p.size then .bytes c false else .needDownload p
       | none => .needDownload p
 
+/-! ### the merge driver's output file (commands/command_merge_driver.go: processFiles)
+A file opened for writing WITHOUT `O_TRUNC` keeps the old tail beyond what is written. -/
+def writeOver (trunc : Bool) (old new : Bytes) : Bytes :=
+  if trunc then new else new ++ old.drop new.length
+
+/-- what `processFiles` leaves in the `--output` file: the cleaned text of the merge result, the
+    file being truncated when it is opened -/
+def mergeDriverOutput (old cleaned : Bytes) : Bytes := writeOver true old cleaned
+
 end Flt
